@@ -1,2 +1,22 @@
+"""L1 part of C20: Signature.__eq__ contracts (contracts/signatures.py)."""
+import time
+from ..pyvc.driver import discharge_all
+from ..pyvc.engine import Unsupported
+from ..common import BASE_ASSUMPTIONS_L1
+
+
 def add_to(run):
-    pass
+    from contracts import signatures as c
+    obs = []
+    for f in c.all_verifiers():
+        try:
+            fv = f()
+        except Unsupported as e:
+            run.undecided.append(f"Signature.__eq__: unsupported construct: {e}")
+            continue
+        run.functions["amaranth_soc." + fv.qualname] = f"proved ({fv.paths} paths, {len(fv.obs)} obligations)"
+        run.require(f"{fv.qualname}::equal-iff-same-class-and-all-parameters-equal")
+        obs += fv.obs
+    run.assumptions += BASE_ASSUMPTIONS_L1 + ["parameters are canonical values (enum members, frozensets, cast shapes) whose Python equality is "
+                                              "the equality of the integers standing for them; Shape.cast is uninterpreted"]
+    discharge_all(run, obs, timeout_ms=10000)
